@@ -57,10 +57,22 @@ def gen(rng, tier):
         k = rng.randint(1, 8)
         spec["cfg"]["absence"] = [a for a in spec["cfg"].get("absence", []) if a < k]
         spec["appended"] = {"k": k, "absence2": G.gen_absence(rng, 10, rng.randint(0, 3))}
+    if rng.random() < 0.08 and not any(spec.get(k_) for k_ in ("history", "edit", "prelude_backward", "appended")) \
+            and spec["cfg"].get("unit_time", 1) == 1 and not any(t_.get("sub") for t_ in spec["model"]["tasks"]):
+        # the registered absence steps are deleted from the finished logs again (several steps, early and late ones)
+        ab = spec["cfg"].get("absence") or []
+        if len(ab) < 2:
+            ab = G.gen_absence(rng, 12, rng.randint(2, 5))
+        spec["cfg"]["absence"] = ab
+        spec["remove"] = True
     return spec
 
 
 def extra_candidates(spec):
+    if spec.get("remove"):
+        c = dict(spec)
+        c.pop("remove")
+        yield c
     if spec.get("appended") is not None:
         c = dict(spec)
         c.pop("appended")
@@ -260,7 +272,8 @@ def check_appended(res, spec):
                 res.add("appended", "C01.after_append_log.log_moves_backward.%s_to_%s" % (SNAME.get(a_), SNAME.get(b_)),
                         "stitched log of %s goes %s -> %s at index %d (part 1 has %d steps; registered absence steps %s)"
                         % (t.ID, SNAME.get(a_, a_), SNAME.get(b_, b_), i, n1, got), i)
-                return
+                return p
+    return p
 
 
 def run(spec):
@@ -277,6 +290,21 @@ def run(spec):
         if o.ok and len(marks) == len(tr.project.cost_list):
             check_edited_logs(res, tr, marks, tr.absence)
             C.check_registered(res, tr, "C01")
+    if spec.get("remove") and tr.out.ok and not spec.get("edit") and getattr(tr, "history", None) is None:
+        from .. import director as D
+        res.count("remove_runs")
+        o = D.call(lambda: tr.project.remove_absence_time_list())
+        if o.ok and not list(tr.project.absence_time_list):
+            # no registered absence step is left: no log entry may fall back any more
+            n_ = len(tr.project.cost_list)
+            for t in tr.ix.tasks:
+                log = [int(x) for x in t.state_record_list]
+                bad = [i for i in range(1, len(log)) if RANK.get(log[i], 2) < RANK.get(log[i - 1], 2)]
+                if bad:
+                    res.add("edit", "C01.after_remove_absence.log_moves_backward",
+                            "simulate with absence list %s, then remove_absence_time_list() (project.absence_time_list is empty, %d steps "
+                            "left): state log of %s is %s" % (spec["cfg"].get("absence"), n_, t.ID, [SNAME.get(x, x) for x in log][:16]), None)
+                    break
     return C.finish(res, tr)
 
 TECHNIQUE = "deterministic simulation: seeded model/schedule/absence search, live-state invariant at every phase of every step"
